@@ -594,7 +594,10 @@ class ExcelCompiler:
                         walk_precedents(child_cell)
                     else:
                         # trim this cell, now we will need only its value
-                        if child_cell.value is None and child_cell.formula:
+                        if child_cell.formula and (
+                                child_cell.value is None or self.cycles):
+                            # with iterative calcs a value may be from a
+                            # single sweep, evaluate it to convergence
                             self.evaluate(child_address)
                         needed_cells.add(child_address)
                         child_cell.formula = None
